@@ -1940,7 +1940,103 @@ def malformed_calls(rng, h):
     return rng.choice(kinds + extra)
 
 
+def _full_manager(ctx, n):
+    """`max_nodes` reached: the `RuntimeError` of a full manager must leave it as it was (oracle
+    only: the model has no capacity limit).  Lower the limit to a few nodes above the current
+    size, run node-creating operations until one is refused, check structure, exact counts and
+    every held function; raise the limit, repeat the refused call (must now succeed and be
+    right), collect, check again."""
+    import sys as _sys
+    import impl as implmod
+    _b = implmod._bdd
+    rng = ctx.rng
+    for k in range(n):
+        nv = rng.randint(3, 6)
+        names = [chr(ord('a') + i) for i in range(nv)]
+        b = _b.BDD()
+        b.declare(*names)
+        ledger = {}
+        pool = []
+        for v in names:
+            u = b.var(v)
+            b.incref(u)
+            ledger[abs(u)] = ledger.get(abs(u), 0) + 1
+            pool.append(u)
+        for _ in range(rng.randint(0, 12)):
+            u = b.apply(rng.choice(['and', 'or', 'xor', 'implies']), rng.choice(pool), -rng.choice(pool))
+            pool.append(u)
+            if rng.random() < 0.5 and abs(u) != 1:
+                b.incref(u)
+                ledger[abs(u)] = ledger.get(abs(u), 0) + 1
+        b.collect_garbage()
+        pool = [u for u in pool if abs(u) in b._succ]
+        b.max_nodes = len(b) + rng.randint(0, 4)
+        held_tt = {u: TT(b, names).of(u) for u in ledger}
+        refused = None
+        for _ in range(40):
+            kind = rng.choice(['apply', 'ite', 'let', 'quantify', 'var'])
+            u, v, w = rng.choice(pool), rng.choice(pool), rng.choice(pool)
+            if kind == 'apply':
+                call = ('apply', rng.choice(['and', 'or', 'xor', 'equiv']), u, -v)
+            elif kind == 'ite':
+                call = ('ite', u, v, -w)
+            elif kind == 'let':
+                call = ('let', {rng.choice(names): v}, u)
+            elif kind == 'quantify':
+                call = ('quantify', u, {rng.choice(names)}, rng.random() < 0.5)
+            else:
+                call = ('var', rng.choice(names))
+            try:
+                r = getattr(b, call[0])(*call[1:])
+                pool.append(r)
+            except RuntimeError:
+                refused = call
+                break
+        ctx.evaluations += 1
+        if refused is None:
+            ctx.count('full:not-reached')
+            continue
+        ctx.count('full:refused-' + refused[0])
+        tt = TT(b, names)
+        bad = check_invariants(b, ledger, probe=False) + order_views_ok(b)
+        for u, t in held_tt.items():
+            if u not in b._succ or tt.of(u) != t:
+                bad.append(f'held node {u} changed or disappeared')
+        if b._min_free in b._succ:
+            bad.append('_min_free names a stored node')
+        if bad:
+            ctx.violation('a full manager (max_nodes reached) was left damaged by the refused call', dict(
+                problems=bad[:4], call=repr(refused), tags=dict(call='failed:full')))
+            continue
+        # go on after raising the limit: the refused call, collections, more calls
+        b.max_nodes = _sys.maxsize
+        try:
+            r = getattr(b, refused[0])(*refused[1:])
+            b.incref(r)
+            ledger[abs(r)] = ledger.get(abs(r), 0) + 1
+            u0 = next(iter(held_tt))
+            b.decref(u0)
+            ledger[u0] -= 1
+            b.collect_garbage()
+            for _ in range(5):
+                pool2 = [x for x in ledger if ledger[x] > 0 and x in b._succ]
+                b.apply('xor', rng.choice(pool2), -rng.choice(pool2))
+            b.collect_garbage()
+            bad = check_invariants(b, ledger, probe=True)
+        except Exception as e:  # noqa: BLE001
+            bad = [f'operation after the refused call raised {e!r}']
+        if bad:
+            ctx.violation('operations after a refused call on a full manager go wrong', dict(
+                problems=bad[:4], call=repr(refused), tags=dict(call='after-failed:full')))
+        ctx.case(('full', k, refused[0]))
+        # neutralise before the manager dies
+        b._ref = {1: 0}
+        b._succ = {1: b._succ[1]}
+        b._pred = {}
+
+
 def check_C17(ctx):
+    _full_manager(ctx, 40 if ctx.tier == 'quick' else 400)
     rng = ctx.rng
     n_hist = 300 if ctx.tier == 'quick' else 1500
     for k in range(n_hist):
